@@ -95,6 +95,19 @@ impl Visitor<Diagnostic> for SymbolTable<'_, Id, DummyNode> {
         ret
     }
 
+    fn visit_configuration_declaration(
+        &mut self,
+        node: &ironplc_dsl::configuration::ConfigurationDeclaration,
+    ) -> Result<(), Diagnostic> {
+        // Variables declared in a configuration are visible in a function
+        // block, function or program only through its own VAR_EXTERNAL
+        // declarations, so they get a scope of their own.
+        self.enter();
+        let ret = node.recurse_visit(self);
+        self.exit();
+        ret
+    }
+
     fn visit_var_decl(&mut self, node: &VarDecl) -> Result<Self::Value, Diagnostic> {
         self.add_if(node.identifier.symbolic_id(), DummyNode {});
         node.recurse_visit(self)
